@@ -62,11 +62,11 @@ Qed.
 Definition filter_ok3 (cs : list string) (r : list val) (e : expr) : Prop :=
   filter_nulls_ok is_cmp_op cs r e = true /\ filter_nulls_ok is_logic_op cs r e = true.
 Definition filter_agrees (e : expr) : Prop :=
-  exists x, (forall ext, tr_expr ext e = Ok x) /\
+  exists x, (forall one ext, tr_expr one ext e = Ok x) /\
             forall cs rs i, filter_ok3 cs (nth i rs []) e -> vrel (plx_at cs rs i x) (eval_expr fl_pandas cs (nth i rs []) e).
 
 Lemma filter_agrees_plain e : expr_vocab e = true ->
-  exists x, (forall ext, tr_expr ext e = Ok x) /\
+  exists x, (forall one ext, tr_expr one ext e = Ok x) /\
             forall cs rs i, nulls_ok3 cs (nth i rs []) e -> vrel (plx_at cs rs i x) (eval_expr fl_pandas cs (nth i rs []) e).
 Proof. intros V. destruct (tr_expr_sound e V) as [x [T E]]. exists x. split; [exact T|]. intros cs rs i G. left. apply E. exact G. Qed.
 
@@ -86,13 +86,13 @@ Proof.
     + (* and / or *)
       destruct (IHa Va) as [xa [Ta Ea]], (IHb Vb) as [xb [Tb Eb]].
       unfold is_logic_op in Lg. split_mem Lg; try discriminate.
-      * exists (PAnd xa xb). split; [intros ext; rewrite tr_expr_op; cbn [tr_list]; rewrite Ta, Tb; reflexivity|].
+      * exists (PAnd xa xb). split; [intros one ext; rewrite tr_expr_op; cbn [tr_list]; rewrite Ta, Tb; reflexivity|].
         intros cs rs i [G1 G2]. cbn [filter_nulls_ok is_logic_op mem] in G1, G2.
         destruct (eq_dec "and" "and"); [|congruence].
         apply andb_true_iff in G1, G2. destruct G1 as [G1a G1b], G2 as [G2a G2b].
         rewrite eval_expr_op. cbn [map plx_at scalar_op f_logic3 fl_pandas].
         apply vrel_and; [apply Ea|apply Eb]; repeat split; assumption.
-      * exists (POr xa xb). split; [intros ext; rewrite tr_expr_op; cbn [tr_list]; rewrite Ta, Tb; reflexivity|].
+      * exists (POr xa xb). split; [intros one ext; rewrite tr_expr_op; cbn [tr_list]; rewrite Ta, Tb; reflexivity|].
         intros cs rs i [G1 G2]. cbn [filter_nulls_ok is_logic_op mem] in G1, G2.
         destruct (eq_dec "or" "and"); [discriminate|]. destruct (eq_dec "or" "or"); [|congruence].
         apply andb_true_iff in G1, G2. destruct G1 as [G1a G1b], G2 as [G2a G2b].
@@ -102,7 +102,7 @@ Proof.
       * (* a comparison other than != *)
         destruct (tr_expr_sound a Va) as [xa [Ta Ea]], (tr_expr_sound b Vb) as [xb [Tb Eb]].
         apply andb_true_iff in Cm. destruct Cm as [Cm Ne]. unfold is_cmp_op in Cm. split_mem Cm; try discriminate; try (cbn in Ne; discriminate).
-        all: eexists; split; [intros ext; rewrite tr_expr_op; cbn [tr_list]; rewrite Ta, Tb; cbn; reflexivity|];
+        all: eexists; split; [intros one ext; rewrite tr_expr_op; cbn [tr_list]; rewrite Ta, Tb; cbn; reflexivity|];
           intros cs rs i [G1 G2]; cbn in G1, G2;
           apply andb_true_iff in G1, G2; destruct G1 as [G1a G1b], G2 as [G2a G2b];
           rewrite eval_expr_op; cbn [map plx_at scalar_op];
@@ -123,23 +123,20 @@ Proof.
 Qed.
 
 (* ------------------------------------------------------------------ extend without a window *)
-Definition tr_ok (e : expr) : plx := match tr_expr true e with Ok x => x | _ => PLit VNull end.
+Definition tr_ok (e : expr) : plx := match tr_expr one_base true e with Ok x => x | _ => PLit VNull end.
 
-Lemma fold_extend_false pb ops temps acc : forallb expr_vocab (map snd ops) = true ->
-  fold_left (extend_fold_step false pb) ops (Ok (temps, acc)) =
-  Ok (temps, acc ++ map (fun ke => (fst ke, CPlain (tr_ok (snd ke)))) ops).
+Lemma fold_extend_false one pb ops temps acc names : forallb expr_vocab (map snd ops) = true ->
+  fold_left (extend_fold_step one false pb) ops (Ok (temps, acc, names)) =
+  Ok (temps, acc ++ map (fun ke => (fst ke, CPlain (tr_ok (snd ke)))) ops, names).
 Proof.
   revert acc. induction ops as [|ke t IH]; intros acc V; [simpl; rewrite app_nil_r; reflexivity|].
   cbn [map forallb] in V. apply andb_true_iff in V. destruct V as [V1 V2].
   destruct (tr_expr_sound (snd ke) V1) as [x [T E]].
-  assert (extend_fold_step false pb (Ok (temps, acc)) ke = Ok (temps, acc ++ [(fst ke, CPlain x)])) as S1.
+  assert (extend_fold_step one false pb (Ok (temps, acc, names)) ke = Ok (temps, acc ++ [(fst ke, CPlain x)], names)) as S1.
   { unfold extend_fold_step. cbn [rbind]. rewrite T. reflexivity. }
   cbn [fold_left map]. rewrite S1, IH by exact V2.
   rewrite <- app_assoc. cbn [app]. unfold tr_ok at 2. rewrite T. reflexivity.
 Qed.
-
-Lemma reserved_part_col : is_reserved extend_part_col = true.
-Proof. reflexivity. Qed.
 
 Lemma ext_cols_fresh cs c : ~ In c cs -> ext_cols cs [c] = cs ++ [c].
 Proof. intros N. unfold ext_cols. simpl. unfold add_end. apply mem_false in N. rewrite N. reflexivity. Qed.
@@ -147,20 +144,20 @@ Proof. intros N. unfold ext_cols. simpl. unfold add_end. apply mem_false in N. r
 Lemma extend_step_ok declared ops w t t2 :
   good t -> w_part w = [] -> w_order w = [] -> declared = ext_cols (cols t) (map fst ops) ->
   forallb expr_vocab (map snd ops) = true ->
-  (forall c, In c (cols t) \/ In c (map fst ops) \/ In c (flat_map (fun ke => expr_cols (snd ke)) ops) -> is_reserved c = false) ->
+  (forall c, In c (flat_map (fun ke => expr_cols (snd ke)) ops) -> In c (cols t)) ->
   (forall r e, In r (rows t) -> In e (map snd ops) -> nulls_ok3 (cols t) r e) ->
   pl_extend_step declared ops false w t = Ok t2 -> t2 = sem_extend fl_pandas ops t.
 Proof.
   intros [ND W] Wp Wo -> V NR G H. unfold pl_extend_step in H. rewrite Wp, Wo in H.
-  rewrite (req_temps_vocab _ V) in H. rewrite app_nil_r in H. rewrite fold_extend_false in H by exact V.
+  rewrite (req_temps_vocab _ _ _ V) in H. rewrite app_nil_r in H. rewrite fold_extend_false in H by exact V.
   cbn [rbind app with_columns_if select_if] in H.
-  set (P := extend_part_col) in *.
+  set (P := fresh extend_part_base (ext_cols (cols t) (map fst ops))) in *.
   set (temps := [(P, CPlain (lit_int 1))]) in *.
   set (produced := map (fun ke => (fst ke, CPlain (tr_ok (snd ke)))) ops) in *.
   set (r1 := pl_with_columns t temps) in *.
   apply pl_select_ok in H. destruct H as [-> _].
-  assert (forall c, is_reserved c = false -> c <> P) as NP.
-  { intros c Hc E0. subst c. unfold P in Hc. rewrite reserved_part_col in Hc. discriminate. }
+  assert (forall c, In c (ext_cols (cols t) (map fst ops)) -> c <> P) as NP.
+  { intros c Ic E0. subst c. exact (fresh_not_in _ _ Ic). }
   assert (cols r1 = ext_cols (cols t) [P]) as C1 by reflexivity.
   assert (map fst produced = map fst ops) as MF.
   { unfold produced. rewrite map_map. reflexivity. }
@@ -190,12 +187,12 @@ Proof.
     assert (expr_vocab (snd ke) = true) as Vk by (rewrite forallb_forall in V; auto).
     destruct (tr_expr_sound (snd ke) Vk) as [x [T E]]. unfold tr_ok. rewrite T. cbn [col_at].
     assert (forall c0, In c0 (expr_cols (snd ke)) -> get (cols t) r c0 = get (cols r1) row1 c0) as CE.
-    { intros c0 I0. symmetry. apply G1; [exact L|]. apply NP. apply NR. right. right.
+    { intros c0 I0. symmetry. apply G1; [exact L|]. apply NP. apply In_ext_cols. left. apply NR.
       apply in_flat_map. exists ke. auto. }
     rewrite E; rewrite (nth_error_nth _ _ [] N1).
     + symmetry. apply eval_expr_cols_ext. exact CE.
     + eapply nulls_ok3_cols_ext; [exact CE|]. apply G; assumption.
-  - apply G1; [exact L|]. apply NP. apply NR. apply In_ext_cols in Ic. tauto.
+  - apply G1; [exact L|]. apply NP. exact Ic.
 Qed.
 
 (* ------------------------------------------------------------------ concat_rows *)
